@@ -595,6 +595,7 @@ class H2ServerPeer:
             if getattr(self, "late_settings", None):
                 self.conn.update_settings(self.late_settings)
             out += self._flush()
+        self._tolerate_empty_frames()
         try:
             events = self.conn.receive_data(data)
         except h2.exceptions.ProtocolError as e:
@@ -635,6 +636,32 @@ class H2ServerPeer:
                 self.open_streams.discard(ev.stream_id)
         out += self._flush()
         return out
+
+    def _tolerate_empty_frames(self):
+        """The h2 library cannot RECEIVE anything on a stream whose receive window its own SETTINGS have made
+        negative (RFC 9113 6.9.2 allows that state, and 6.9.1 allows an empty DATA frame with END_STREAM in
+        it): it answers FLOW_CONTROL_ERROR even to a zero-length frame.  The streams of THIS server connection
+        (the instance, not the library) accept a zero-length frame; anything longer is judged as before."""
+        if getattr(self, "_tolerant", False):
+            return
+        self._tolerant = True
+        conn = self.conn
+        orig = conn._begin_new_stream
+
+        def begin(*a, **k):
+            st = orig(*a, **k)
+            wm = st._inbound_window_manager
+            owc = wm.window_consumed
+
+            def wc(size, owc=owc):
+                if size == 0:
+                    return None
+                return owc(size)
+
+            wm.window_consumed = wc
+            return st
+
+        conn._begin_new_stream = begin
 
     def respond(self, sid, spec=None):
         """Emit the planned response for stream `sid`; records frame end offsets."""
